@@ -263,16 +263,13 @@ func splitNode[T any](n *node[T], pos int) (*node[T], error) {
 		return nil, err
 	}
 	ret := p.newChild(segs[0])
-	c := ret.newChild(segs[1])
-	c.handlers = n.handlers
-	c.methodIndex = n.methodIndex
-	c.children = n.children
-	c.indexes = n.indexes
-	for _, item := range c.children {
-		item.parent = c
-	}
+	// 后一段继续使用 n 对象本身：OPTIONS 和 405 的处理函数在生成时引用了该对象，
+	// 换成新对象会让它们的 Allow 报头永远停留在拆分之前的状态。
+	n.segment = segs[1]
+	n.parent = ret
+	ret.children = append(ret.children, n)
 
-	// ret 和 c 的内容在 newChild 之后被修改，所以需要对其子元素重新排序。
+	// ret 的内容在 newChild 之后被修改，所以需要对其子元素重新排序。
 	ret.sort()
 	p.sort()
 
